@@ -5,6 +5,7 @@ CONSTANTS
   DEnd = 5
   Secs = {0, 30, 43200}
   Bounds = {0}
+  ContinueAfterInfinite = FALSE
   Unsound = FALSE
 INVARIANTS StreamOk RangeOk FirstOk BoundOk Progress
 CHECK_DEADLOCK FALSE
